@@ -252,6 +252,16 @@ pub fn shard(cfg: &RunCfg, shard: usize, instances: usize) -> Reporter {
                 rep.failed("config_validation", None, "update with genesis in the past accepted".into(), witness(json!({})));
             }
         }
+        // re-submitting the stored genesis once it lies in the past is a genesis in the past too
+        if g < tnow {
+            let before = current(&w, &c).map(|e| e.epoch.id);
+            let r = w.exec(&owner, &c, &em::ExecuteMsg::UpdateConfig { epoch_config: Some(em::EpochConfig { duration: Uint64::new(dur.saturating_add(DAY).max(DAY)), genesis_epoch: Uint64::new(g) }) }, &[]);
+            if r.is_ok() {
+                rep.failed("config_validation", None, format!("update re-submitting the elapsed genesis {g} (now {tnow}) with another duration accepted: epoch id was {before:?}, is {:?}", current(&w, &c).map(|e| e.epoch.id)), witness(json!({"genesis": g.to_string(), "now": tnow.to_string()})));
+            } else {
+                rep.held("config_validation", hash_of(&"stored_elapsed_genesis"), || json!({"update": "stored genesis, already elapsed, other duration", "result": "refused"}));
+            }
+        }
         let r = w.exec(&owner, &c, &em::ExecuteMsg::UpdateConfig { epoch_config: Some(newcfg.clone()) }, &[]);
         if r.is_ok() {
             rep.held("config_validation", hash_of(&"update"), || json!({"update": "valid, by owner", "result": "accepted"}));
